@@ -181,6 +181,13 @@ theorem extracted_diag_eq (s : St) (axesIn : List Nat) (axisOut : Nat) :
     · simp [h1, h2, bind, Except.bind]
   · simp [h1, bind, Except.bind]
 
+/-- **The bounded reading of the `while` loop loses nothing**: with the fuel `len(axes_in)` that the translation (and the
+model) uses, the loop never ends with "FuelExhausted" — every iteration shortens `axes_in` by one — so by
+`extracted_diag_eq` the translated `diagonalInner` never reports exhausted fuel on non-negative axes either. -/
+theorem diag_fuel_sufficient (s : St) (axesIn : List Nat) :
+    diagLoop (sortedNat axesIn).length s (sortedNat axesIn) ≠ .error "FuelExhausted" :=
+  diagLoop_fuel_sufficient _ _ _ (by omega)
+
 /-- **The diagonal axis is moved, not swapped** (the defect D1 was a swap): the final permutation of the model
 (equal to the translation's by `extracted_diag_eq`) has `axisIn` at position `axisOut`, and all other axes keep
 their order. -/
